@@ -5,7 +5,7 @@ import calendar, collections, itertools, random, re, sys
 from qa import samp
 from datetime import date, datetime, timedelta
 import grammar as G
-from realparse import parse_many, T, I
+from realparse import parse_many, T, I, to_ts
 
 
 # ------------------------------------------------------------------ reference times
@@ -98,6 +98,22 @@ def option_stratum(rng, cases, exp, fam, k):
     for i in idx:
         o = dict(cases[i][2] or {}); o["relative_match_len"] = 0.7
         cases.append((cases[i][0], cases[i][1], o)); exp.append(exp[i]); fam.append("relative_match_len 0.7: " + str(fam[i]))
+    tz_stratum(rng, cases, exp, fam, max(10, k // 3))
+
+
+def tz_stratum(rng, cases, exp, fam, k):
+    """a reference time is a wall-clock reading: the same fields in a timezone-aware datetime (any UTC offset) give the same answer
+    (the reference is never converted to another zone).  A sample of the cases again with an aware reference time; reference
+    times near midnight first (there a conversion would change the date)"""
+    cand = [i for i, c in enumerate(cases) if isinstance(c[0], str) and c[1] is not None and len(c[1]) >= 5 and not isinstance(c[1][-1], str)
+            and not callable(exp[i]) and not (c[2] or {}).get("frozen_now")]
+    night = [i for i in cand if cases[i][1][3] in (0, 1, 22, 23)]
+    idx = samp(rng, night, k // 2)
+    idx += samp(rng, [i for i in cand if i not in set(idx)], k - len(idx))
+    for i in idx:
+        off = rng.choice([330, -600, 120, 765, -210, 60])
+        ts = tuple(cases[i][1]) + ("tz%d" % off,)
+        cases.append((cases[i][0], ts, cases[i][2])); exp.append(exp[i]); fam.append("aware reference time (UTC%+d min): %s" % (off, fam[i]))
 
 
 def history_check(name, cases, recs, k=40):
@@ -398,9 +414,9 @@ def sweep_c05(rng, tier):
             (ca, ea), (cb, eb) = samp(rng, lst, 2) if len(lst) >= 2 else (lst[0], lst[0])
             if ea == eb: continue
             try:
-                g = _gen(ca[0], ts=datetime(*ca[1]), timeout=0)
+                g = _gen(ca[0], ts=to_ts(ca[1]), timeout=0)
                 got = [next(g, None)]
-                list(_gen(cb[0], ts=datetime(*cb[1]), timeout=0))
+                list(_gen(cb[0], ts=to_ts(cb[1]), timeout=0))
                 got += list(g)
                 got = [x for x in got if x is not None]
                 best = max(got, key=lambda x: x.score) if got else None
@@ -553,6 +569,12 @@ def sweep_c07(rng, tier):
                 return dt_of(iv[0]) < dt_of(iv[1])      # never inverted
             return True
         return pred
+    def never_inverted(rec):
+        if rec.get("err"): return False
+        iv = dec_interval(rec.get("res"))
+        if iv and iv[0] is not None and iv[1] is not None and all(iv[k][f] is not None for k in (0, 1) for f in ("y", "m", "d")):
+            return dt_of(iv[0]) <= dt_of(iv[1])
+        return True
     for d1 in ds:
         for d2 in ds:
             if d1 == d2: continue
@@ -561,6 +583,14 @@ def sweep_c07(rng, tier):
                 cases.append((txt, ts0, {})); exp.append(date_pred(d1, d2)); fam.append("date pair")
             txt = "between %d.%d.%d and %d.%d.%d" % (d1.day, d1.month, d1.year, d2.day, d2.month, d2.year)
             cases.append((txt, ts0, {})); exp.append(date_pred(d1, d2)); fam.append("date pair")
+            # a lower-bound word in front and an upper-bound word between (both of the pattern language, e.g. 'from A until B',
+            # 'ab A bis B', 'after A before B'): whatever reading wins, a fully dated interval is never inverted
+            for _ in range(2 if tier == "thorough" else 1):
+                a, b = rng.choice(after), rng.choice(before)
+                for fmt in ("%d.%d.%d", "%d.%d."):
+                    f = (lambda d: fmt % ((d.day, d.month, d.year) if fmt.count("%d") == 3 else (d.day, d.month)))
+                    txt = "%s %s %s %s" % (a, f(d1), b, f(d2))
+                    cases.append((txt, (2019, 6, 1, 12, 0, 0), {})); exp.append(never_inverted); fam.append("bounded pair '<after-word> A <before-word> B'")
     case_stratum(rng, cases, exp, fam, 240 if tier == "thorough" else 60)
     label_stratum(rng, cases, exp, fam, 200 if tier == "thorough" else 50, preds_ok=True)
     option_stratum(rng, cases, exp, fam, 200 if tier == "thorough" else 60)
